@@ -21,8 +21,13 @@ from mpyc import finfields  # noqa: E402
 LEVEL = 'proof'
 LEAN_MODULES = ['MpycV.Props.C24']
 LEAN_NAMESPACES = ['MpycV.C24']
-# >>> PLACEHOLDER: to be filled in by the coordinator once lean/MpycV/Props/C24.lean exists <<<
-REQUIRED_THEOREMS = []
+REQUIRED_THEOREMS = [
+    'is_irreducible_correct', 'is_irreducible_iff_no_factor', 'reducible_detected', 'bin_is_irreducible_correct',
+    'next_irreducible_spec', 'find_irreducible_spec', 'find_irreducible_degree', 'search_terminates',
+    'next_irreducible_never_X', 'next_irreducible_skips_X_witness',
+    'bin_next_irreducible_spec', 'bin_find_irreducible_spec', 'GF_accepts_iff', 'bin_GF_accepts_iff',
+    'table_p2_deg6', 'table_p3_deg3', 'table_p5_deg2', 'table_p7_deg2', 'table_bin_deg6',
+]
 
 RULE = (
     'A case is one (class, polynomial) or (p, degree) input of the real code. Exhaustive: EVERY polynomial (monic and '
@@ -51,6 +56,12 @@ ASSUMPTIONS = [
 ]
 TRUSTED = ['harness/gfpx_oracle.py (trial division, sieve, Rabin test)', 'lean/Drv/GFpX.lean driver']
 
+# Known genuine deviation of the real code (reported once, minimal instance; the Lean model transcribes it):
+KNOWN_DEVIATIONS = {
+    'C24-next-irreducible-skips-x': 'for odd p the generic _next_irreducible skips every multiple of x including x itself: '
+                                    'GF(3): next_irreducible(0) = x+1 (expected x), finfields.find_irreducible(3, 1) = x+1 '
+                                    '(expected x); for p = 2 (BinaryPolynomial) x is returned.',
+}
 FINDING_X = 'C24-next-irreducible-skips-x'
 FUEL = 100000
 X = [0, 1]
@@ -280,10 +291,49 @@ def build_jobs(ctx, nodriver=False):
     return jobs
 
 
+def xgf_correspondence(ctx):
+    """finfields.xGF(modulus) vs the Lean model `xGF` (driver ops `xgf p a`, `b.xgf a`): the field parameters
+    `order|ext_deg` or `ValueError`; every polynomial of small degree + a seeded random sample for p = 11, 101."""
+    gfpx = B.gfpx
+    reqs, impl, inputs = [], [], []
+
+    def one(p, a):
+        cls = gfpx.GFpX(p)
+        try:
+            F = finfields.xGF(cls(O.to_int(p, a)))
+            obs = f'{F.order}|{F.ext_deg}'
+        except Exception as exc:  # ValueError expected for reducible moduli
+            obs = type(exc).__name__
+        lines = [f'xgf {p} {B.fmtL(a)}']
+        if p == 2:
+            lines.append(f'b.xgf {O.to_int(2, a)}')
+        for ln in lines:
+            reqs.append(ln)
+            impl.append(obs)
+            inputs.append({'function': 'finfields.xGF', 'p': p, 'modulus': list(a), 'driver': ln})
+        ctx.case(('xgf', p, tuple(a)))
+        ctx.count(f'{p}:xgf:{"accepted" if "|" in obs else obs}')
+
+    for p, maxdeg in ((2, ctx.scale(8, 10)), (3, ctx.scale(4, 5)), (5, 3), (7, ctx.scale(2, 3))):
+        for n in range(p ** (maxdeg + 1)):
+            one(p, O.from_int(p, n))
+    rng = ctx.subrng('xgf')
+    for p in (11, 101):
+        for _ in range(ctx.scale(150, 1000)):
+            d = rng.randrange(1, 7)
+            a = [rng.randrange(p) for _ in range(d)] + [rng.randrange(1, p)]
+            if rng.random() < 0.4:       # make irreducible inputs frequent: ask the real search for one
+                a = list(gfpx.GFpX(p).next_irreducible(O.to_int(p, a[:-1] + [1])))
+            one(p, a)
+    model = common.LeanDriver('GFpX').run(reqs)
+    ctx.compare('xgf', impl, model, inputs)
+
+
 def run(ctx):
     jobs = build_jobs(ctx)
     B.run_jobs(ctx, jobs, __name__)
-    ctx.note(f'{len(jobs)} jobs')
+    xgf_correspondence(ctx)
+    ctx.note(f'{len(jobs)} jobs + xgf correspondence')
 
 
 def search(ctx):
